@@ -107,3 +107,11 @@ Example C17_example_tokens :
       (t_tokenize ascii_oracle C17_example_trie [120;32;40;97;32;98;32;99;32;100;32;101;41;32;121]%N)
   = [(0, 0, None); (2, 2, None); (3, 3, None); (5, 9, Some 2%nat); (11, 11, None); (12, 12, None); (14, 14, None)]%Z.
 Proof. vm_compute. reflexivity. Qed.
+
+(* duplicates and ties allowed: a token survives when every other token is a copy of it, apart from it, shorter, or as
+   long and starting later (used by C05 to show that a stored name inside an unknown run would have become a token) *)
+Theorem C17_kept_when_dominant : forall V (x : Trie.tok V) l, wf_tok x -> In x l ->
+  (forall y, In y l -> y = x \/ (wf_tok y /\ (apart x y \/ (tok_len y < tok_len x)%Z \/ (tok_len y = tok_len x /\ (tstart x < tstart y)%Z)))) ->
+  In x (filter_overlapping l).
+Proof. intro V. exact (@fo_keeps_dominant_tie V). Qed.
+Print Assumptions C17_kept_when_dominant.
